@@ -913,6 +913,8 @@ func (t *Tree) Compile(file string, args []string, out io.Writer) (err error) {
 	t.HasRange = usage[TypeRange] > 0
 
 	var printRule func(n *node)
+	/* Go code quoted in the comment above a rule must not end that comment */
+	comment := func(code string) string { return strings.ReplaceAll(code, "*/", "* /") }
 	var compile func(expression *node, ko uint) (labelLast bool)
 	var label uint
 	labels := make(map[uint]bool)
@@ -951,11 +953,11 @@ func (t *Tree) Compile(file string, args []string, out io.Writer) (err error) {
 			upper := element
 			_print("[%v-%v]", escape(lower.String()), escape(upper.String()))
 		case TypePredicate:
-			_print("&{%v}", n)
+			_print("&{%v}", comment(n.String()))
 		case TypeStateChange:
-			_print("!{%v}", n)
+			_print("!{%v}", comment(n.String()))
 		case TypeAction:
-			_print("{%v}", n)
+			_print("{%v}", comment(n.String()))
 		case TypeCommit:
 			_print("commit")
 		case TypeAlternate:
